@@ -148,19 +148,23 @@ class MatchToIf(ast.NodeTransformer):
             if r is None:
                 return node
             test, binds = r
+            mk = lambda bs: [ast.copy_location(ast.Assign(targets=[ast.Name(id=n, ctx=ast.Store())], value=copy.deepcopy(e), lineno=node.lineno), node) for n, e in bs]
             if c.guard is not None:
+                if binds and test is None:
+                    # case name if GUARD: the capture always succeeds and binds (also when the guard then fails); the guard reads the name
+                    arms.append((c.guard, list(c.body), mk(binds)))
+                    continue
                 if binds:
                     return node
                 test = c.guard if test is None else ast.BoolOp(op=ast.And(), values=[test, c.guard])
-            body = [ast.copy_location(ast.Assign(targets=[ast.Name(id=n, ctx=ast.Store())], value=copy.deepcopy(e), lineno=node.lineno), node) for n, e in binds] + c.body
-            arms.append((test, body))
+            arms.append((test, mk(binds) + c.body, []))
         # build the chain from the end
         orelse = []
-        for test, body in reversed(arms):
+        for test, body, before in reversed(arms):
             if test is None:
-                orelse = body
+                orelse = before + body
             else:
-                orelse = [ast.copy_location(ast.If(test=test, body=body, orelse=orelse), node)]
+                orelse = before + [ast.copy_location(ast.If(test=test, body=body, orelse=orelse), node)]
         return pre + orelse
 
 
@@ -553,6 +557,11 @@ class Desugar(ast.NodeTransformer):
                 elt = ast.Call(func=node.args[0], args=[x.args[0] for x in node.args[1:]], keywords=[])
                 rng = ast.Call(func=ast.Name(id="range", ctx=ast.Load()), args=[bounds[0]], keywords=[])
                 return ast.copy_location(ast.GeneratorExp(elt=elt, generators=[ast.comprehension(target=ast.Name(id="_", ctx=ast.Store()), iter=rng, ifs=[], is_async=0)]), node)
+        # reduce(add, XS, B)  ->  sum(XS, B)       (sum IS the left fold of + from its start value; += on the fold's running value is + for numbers)
+        if fn in ("reduce", "functools.reduce") and len(node.args) == 3 and not node.keywords and isinstance(node.args[0], (ast.Name, ast.Attribute)) \
+                and (ast.unparse(node.args[0]) in ("operator.add", "operator.iadd") or OPERATOR_NAMES.get(ast.unparse(node.args[0])) in ("add", "iadd")) \
+                and isinstance(node.args[2], (ast.Name, ast.Constant)):
+            return self.visit_Call(ast.copy_location(ast.Call(func=ast.Name(id="sum", ctx=ast.Load()), args=[node.args[1], node.args[2]], keywords=[]), node))
         # map(F, X) -> (F(v) for v in X) ;  map(F, repeat(x, n)) -> (F(x) for _ in range(n)) ;  filter(lambda v: C, X) -> (v for v in X if C)
         if fn == "map" and len(node.args) == 2 and not node.keywords and isinstance(node.args[0], (ast.Name, ast.Attribute, ast.Call, ast.Lambda)):
             f, xs = node.args
@@ -837,6 +846,17 @@ class Desugar(ast.NodeTransformer):
     def visit_For(self, node):
         self.generic_visit(node)
         it = node.iter
+        # for t in (E for v in XS): B   ->   for v in XS: t = E; B        (a generator is lazy: E is evaluated once per iteration, right before B)
+        if isinstance(it, ast.GeneratorExp) and len(it.generators) == 1 and not it.generators[0].ifs and not it.generators[0].is_async and isinstance(it.generators[0].target, ast.Name) \
+                and not node.orelse:
+            g = it.generators[0]
+            v = g.target.id
+            clash = any(isinstance(x, ast.Name) and x.id == v for b in node.body for x in ast.walk(b)) or any(isinstance(x, ast.Name) and x.id == v for x in ast.walk(node.target))
+            if not clash and not any(isinstance(x, (ast.Yield, ast.YieldFrom, ast.Await)) for x in ast.walk(it.elt)):
+                bind = ast.copy_location(ast.Assign(targets=[node.target], value=it.elt, lineno=node.lineno), node)
+                node = ast.copy_location(ast.For(target=ast.Name(id=v, ctx=ast.Store()), iter=g.iter, body=[bind] + node.body, orelse=[], type_comment=None), node)
+                ast.fix_missing_locations(node)
+                it = node.iter
         # for x in CODEC.bread(stream, n): ..   ->   _it = CODEC.bread(stream, n); for x in _it: ..      (the iterable is evaluated once, first)
         if isinstance(it, ast.Call) and isinstance(it.func, ast.Attribute) and it.func.attr in ("bread", "read") and isinstance(it.func.value, ast.Name):
             tmp = f"_it{next(_counter)}"
@@ -1405,6 +1425,7 @@ def transpose_views(tree):
             if isinstance(x, ast.Name) and isinstance(x.ctx, (ast.Store, ast.Del)):
                 stores[x.id] = stores.get(x.id, 0) + 1
         two_d = {}
+        dims_of = {}
         for st in ast.walk(fn):
             if isinstance(st, ast.Assign) and len(st.targets) == 1 and isinstance(st.targets[0], ast.Name) and stores.get(st.targets[0].id) == 1 and isinstance(st.value, ast.Call):
                 c = st.value
@@ -1420,16 +1441,33 @@ def transpose_views(tree):
                     shape, fresh = c.args[0], True
                 if shape is not None:
                     two_d[st.targets[0].id] = (st, fresh)
+                    dims = list(shape.elts) if isinstance(shape, (ast.Tuple, ast.List)) else list(shape)
+                    if all(isinstance(d_, (ast.Name, ast.Attribute)) or (isinstance(d_, ast.Constant) and type(d_.value) is int and d_.value >= 0) for d_ in dims):
+                        dims_of[st.targets[0].id] = dims
         if not two_d:
             continue
 
         class A(ast.NodeTransformer):
             def visit_Subscript(self, node):
+                nonlocal n
                 self.generic_visit(node)
                 v = node.value
+                # X.T.shape[k] is X.shape[1 - k];  X.shape[k] of `X = E.reshape([a, b])` is a / b (plain names: their value is the one the array was built with
+                # only if they are not re-bound, which the single-store test on the names covers)
+                if isinstance(v, ast.Attribute) and v.attr == "shape" and isinstance(node.slice, ast.Constant) and node.slice.value in (0, 1) and isinstance(node.ctx, ast.Load):
+                    base, k = v.value, node.slice.value
+                    if isinstance(base, ast.Attribute) and base.attr == "T":
+                        base, k = base.value, 1 - k
+                    if isinstance(base, ast.Name) and base.id in two_d:
+                        d_ = dims_of.get(base.id, [None, None])[k]
+                        if d_ is not None and all(stores.get(y.id, 0) == (0 if y.id in {a.arg for a in fn.args.args + fn.args.kwonlyargs + fn.args.posonlyargs} else 1) for y in ast.walk(d_) if isinstance(y, ast.Name)):
+                            n += 1
+                            return copy.deepcopy(d_)
+                        if k != node.slice.value:
+                            n += 1
+                            return ast.copy_location(ast.Subscript(value=ast.Attribute(value=base, attr="shape", ctx=ast.Load()), slice=ast.Constant(k), ctx=ast.Load()), node)
                 if isinstance(v, ast.Attribute) and v.attr == "T" and isinstance(v.value, ast.Name) and v.value.id in two_d and isinstance(node.slice, ast.Tuple) \
                         and len(node.slice.elts) == 2 and not any(isinstance(e, (ast.Slice, ast.Starred)) for e in node.slice.elts):
-                    nonlocal n
                     n += 1
                     node.value = v.value
                     node.slice = ast.Tuple(elts=[node.slice.elts[1], node.slice.elts[0]], ctx=ast.Load())
@@ -1555,7 +1593,6 @@ def flat_iteration(tree):
             def _comp(self, node):
                 self.generic_visit(node)
                 if len(node.generators) == 1 and is_flat(node.generators[0].iter) and isinstance(node.generators[0].target, ast.Name):
-                    nonlocal n
                     g = node.generators[0]
                     k = next(_counter)
                     i, j = f"_fi{k}", f"_fj{k}"
@@ -2568,6 +2605,713 @@ def forward_lazy_iterables(tree):
     return n
 
 
+
+def empty_guards(tree):
+    """if NONEMPTY(X): for t in X: B          ==>   for t in X: B
+       if EMPTY(X): return R                   ==>   (dropped)         when what follows is `for t in X: B` and then the same `return R`
+    Walking an empty sequence does nothing, so a guard that only skips the walk of an empty X is the walk itself.  EMPTY / NONEMPTY
+    are len(X) ==/!=/</<=/>/>= 0|1, `not len(X)`, `len(X)`, and the same over X.size when X is a local bound once to a counted
+    `<codec>.bread(stream, n)` (a one-dimensional array of n records)."""
+    n = 0
+
+    def polarity(c, fn):
+        """(+1 nonempty | -1 empty, text of X) or None"""
+        neg = False
+        while isinstance(c, ast.UnaryOp) and isinstance(c.op, ast.Not):
+            neg = not neg
+            c = c.operand
+
+        def measure(e):
+            if isinstance(e, ast.Call) and isinstance(e.func, ast.Name) and e.func.id == "len" and len(e.args) == 1 and isinstance(e.args[0], ast.Name):
+                return e.args[0].id
+            if isinstance(e, ast.Attribute) and e.attr == "size" and isinstance(e.value, ast.Name):
+                x = e.value.id
+                defs = [a for a in ast.walk(fn) if isinstance(a, ast.Assign) and any(isinstance(t, ast.Name) and t.id == x for t in a.targets)]
+                stores = [y for y in ast.walk(fn) if isinstance(y, ast.Name) and y.id == x and isinstance(y.ctx, ast.Store)]
+                if len(defs) == 1 and len(stores) == 1 and isinstance(defs[0].value, ast.Call) and isinstance(defs[0].value.func, ast.Attribute) \
+                        and defs[0].value.func.attr == "bread" and len(defs[0].value.args) == 2:
+                    return x
+            return None
+        pol = None
+        x = measure(c)
+        if x is not None:
+            pol = 1
+        elif isinstance(c, ast.Compare) and len(c.ops) == 1 and isinstance(c.comparators[0], ast.Constant) and type(c.comparators[0].value) is int:
+            x = measure(c.left)
+            k = c.comparators[0].value
+            op = type(c.ops[0])
+            if x is not None:
+                if (op, k) in ((ast.NotEq, 0), (ast.Gt, 0), (ast.GtE, 1)):
+                    pol = 1
+                elif (op, k) in ((ast.Eq, 0), (ast.LtE, 0), (ast.Lt, 1)):
+                    pol = -1
+        if pol is None or x is None:
+            return None
+        return (-pol if neg else pol), x
+
+    def walks(st, x):
+        return isinstance(st, ast.For) and isinstance(st.iter, ast.Name) and st.iter.id == x and not st.orelse
+
+    for fn in [f for f in ast.walk(tree) if isinstance(f, ast.FunctionDef)]:
+        for holder in ast.walk(fn):
+            for field in ("body", "orelse", "finalbody"):
+                blk = getattr(holder, field, None)
+                if not isinstance(blk, list) or not blk or not all(isinstance(b, ast.stmt) for b in blk):
+                    continue
+                i = 0
+                while i < len(blk):
+                    st = blk[i]
+                    if isinstance(st, ast.If):
+                        p = polarity(st.test, fn)
+                        if p is not None:
+                            pol, x = p
+                            if pol == 1 and not st.orelse and len(st.body) == 1 and walks(st.body[0], x):
+                                blk[i] = st.body[0]
+                                n += 1
+                                continue
+                            if pol == -1 and not st.orelse and len(st.body) == 1 and isinstance(st.body[0], ast.Return) and i + 2 < len(blk) + 0 and walks(blk[i + 1], x) \
+                                    and isinstance(blk[i + 2], ast.Return) and ast.dump(blk[i + 2]) == ast.dump(st.body[0]):
+                                # the loop must not touch what the return reads: with X empty it does not run at all, so nothing to require
+                                del blk[i]
+                                n += 1
+                                continue
+                    i += 1
+    if n:
+        ast.fix_missing_locations(tree)
+    return n
+
+
+def dict_records(tree):
+    """{k: E(k, v) for (k, v) in ((K1, V1), (K2, V2), ..)}      ==>   {K1: E(K1, V1), K2: E(K2, V2), ..}     (a literal table: same order of evaluation)
+       F(**{'a': x, 'b': y}, c=z)                                ==>   F(a=x, b=y, c=z)
+       d = {'a': x, 'b': y}; .. d.pop('a') .. d['b'] .. F(**d)   ==>   _d_a = x; _d_b = y; .. _d_a .. _d_b .. F(b=_d_b)
+    A dict with literal string keys that is only subscripted / popped by literal key and splatted into calls is a bundle of locals.
+    The bundle form requires: one binding of d (a dict display) at the top level of the function body, every other use of d is one
+    of the three forms, all at the top level of the same body in straight-line statements (so the pops before a splat are known)."""
+    n = 0
+    # (1) comprehension over a literal table of tuples
+    class Unroll(ast.NodeTransformer):
+        def visit_DictComp(self, node):
+            self.generic_visit(node)
+            nonlocal n
+            if len(node.generators) != 1 or node.generators[0].ifs or node.generators[0].is_async:
+                return node
+            g = node.generators[0]
+            if not isinstance(g.iter, (ast.Tuple, ast.List)) or not g.iter.elts:
+                return node
+            names = [g.target.id] if isinstance(g.target, ast.Name) else ([e.id for e in g.target.elts] if isinstance(g.target, ast.Tuple) and all(isinstance(e, ast.Name) for e in g.target.elts) else None)
+            if names is None:
+                return node
+            keys, vals = [], []
+            for row in g.iter.elts:
+                if isinstance(g.target, ast.Name):
+                    parts = [row]
+                elif isinstance(row, (ast.Tuple, ast.List)) and len(row.elts) == len(names):
+                    parts = row.elts
+                else:
+                    return node
+                if any(isinstance(y, (ast.Call, ast.NamedExpr, ast.Starred)) for p_ in parts for y in ast.walk(p_)):
+                    return node
+                env = dict(zip(names, parts))
+
+                class S(ast.NodeTransformer):
+                    def visit_Name(self, nd):
+                        if nd.id in env and isinstance(nd.ctx, ast.Load):
+                            return copy.deepcopy(env[nd.id])
+                        return nd
+                keys.append(S().visit(copy.deepcopy(node.key)))
+                vals.append(S().visit(copy.deepcopy(node.value)))
+            n += 1
+            return ast.copy_location(ast.Dict(keys=keys, values=vals), node)
+    Unroll().visit(tree)
+
+    def literal_keys(d):
+        return isinstance(d, ast.Dict) and all(isinstance(k, ast.Constant) and isinstance(k.value, str) and k.value.isidentifier() for k in d.keys) \
+            and len({k.value for k in d.keys}) == len(d.keys)
+
+    # (2) splat of a dict display
+    for c in [x for x in ast.walk(tree) if isinstance(x, ast.Call)]:
+        new = []
+        changed = False
+        for k in c.keywords:
+            if k.arg is None and literal_keys(k.value):
+                new += [ast.keyword(arg=kk.value, value=vv) for kk, vv in zip(k.value.keys, k.value.values)]
+                changed = True
+            else:
+                new.append(k)
+        if changed and len({k.arg for k in new if k.arg}) == len([k for k in new if k.arg]):
+            c.keywords = new
+            n += 1
+    # (3) bundle of locals
+    for fn in [f for f in ast.walk(tree) if isinstance(f, ast.FunctionDef)]:
+        for i, st in enumerate(fn.body):
+            if not (isinstance(st, ast.Assign) and len(st.targets) == 1 and isinstance(st.targets[0], ast.Name) and literal_keys(st.value) and st.value.keys):
+                continue
+            d = st.targets[0].id
+            uses = [y for y in ast.walk(fn) if isinstance(y, ast.Name) and y.id == d and y is not st.targets[0]]
+            if not uses or any(isinstance(y.ctx, ast.Store) for y in uses):
+                continue
+            keys = [k.value for k in st.value.keys]
+            rest = fn.body[i + 1:]
+            top_of = {}
+            for j, b in enumerate(rest):
+                for y in ast.walk(b):
+                    top_of[id(y)] = j
+            if any(id(u) not in top_of for u in uses):
+                continue
+            ok = True
+            plan = []  # (stmt index, kind, node, key)
+            parents = {}
+            for b in rest:
+                for p_ in ast.walk(b):
+                    for ch in ast.iter_child_nodes(p_):
+                        parents[id(ch)] = p_
+            for u in uses:
+                par = parents.get(id(u))
+                j = top_of[id(u)]
+                # straight-line statement only (a use under a loop / branch could run a pop zero or many times)
+                if isinstance(rest[j], (ast.For, ast.While, ast.If, ast.Try, ast.With, ast.FunctionDef)):
+                    ok = False
+                    break
+                if isinstance(par, ast.Subscript) and par.value is u and isinstance(par.ctx, ast.Load) and isinstance(par.slice, ast.Constant) and par.slice.value in keys:
+                    plan.append((j, "get", par, par.slice.value))
+                elif isinstance(par, ast.Attribute) and par.value is u and par.attr == "pop" and isinstance(parents.get(id(par)), ast.Call) and parents[id(par)].func is par \
+                        and len(parents[id(par)].args) == 1 and not parents[id(par)].keywords and isinstance(parents[id(par)].args[0], ast.Constant) and parents[id(par)].args[0].value in keys:
+                    plan.append((j, "pop", parents[id(par)], parents[id(par)].args[0].value))
+                elif isinstance(par, ast.keyword) and par.arg is None and par.value is u:
+                    plan.append((j, "splat", par, None))
+                else:
+                    ok = False
+                    break
+            if not ok:
+                continue
+            # pops and other uses of one statement: order inside a statement is not tracked, so at most one use per statement unless all are gets
+            per = {}
+            for j, kind, node, key in plan:
+                per.setdefault(j, []).append(kind)
+            if any(len(v) > 1 and any(k != "get" for k in v) for v in per.values()):
+                continue
+            live = list(keys)
+            popped_twice = False
+            repl = {}
+            local = lambda k: f"_{d}_{k}"
+            for j, kind, node, key in sorted(plan, key=lambda t: t[0]):
+                if kind in ("get", "pop"):
+                    if key not in live:
+                        popped_twice = True
+                        break
+                    repl[id(node)] = ast.Name(id=local(key), ctx=ast.Load())
+                    if kind == "pop":
+                        live.remove(key)
+                else:
+                    repl[id(node)] = [ast.keyword(arg=k, value=ast.Name(id=local(k), ctx=ast.Load())) for k in live]
+            if popped_twice:
+                continue
+
+            class R(ast.NodeTransformer):
+                def visit_Call(self, node):
+                    if id(node) in repl:
+                        return repl[id(node)]
+                    self.generic_visit(node)
+                    kws = []
+                    for k in node.keywords:
+                        kws += repl[id(k)] if id(k) in repl else [k]
+                    if len({k.arg for k in kws if k.arg}) != len([k for k in kws if k.arg]):
+                        raise _Clash()
+                    node.keywords = kws
+                    return node
+
+                def visit_Subscript(self, node):
+                    if id(node) in repl:
+                        return repl[id(node)]
+                    self.generic_visit(node)
+                    return node
+
+            class _Clash(Exception):
+                pass
+            saved = copy.deepcopy(fn.body)
+            try:
+                new_rest = [R().visit(b) for b in rest]
+            except _Clash:
+                continue
+            binds = [ast.copy_location(ast.Assign(targets=[ast.Name(id=local(k.value), ctx=ast.Store())], value=v, lineno=st.lineno), st) for k, v in zip(st.value.keys, st.value.values)]
+            fn.body = fn.body[:i] + binds + new_rest
+            n += 1
+            break
+    if n:
+        ast.fix_missing_locations(tree)
+    return n
+
+
+def eafp_attribute(tree):
+    """try: v = o.A            ==>   if hasattr(o, 'A'): v = o.A; S2
+       except AttributeError: S1      else: S1
+       else: S2
+    (o a plain name; the try body is the single attribute read, so AttributeError can only come from it, and hasattr(o, 'A') is
+    by definition "reading o.A does not raise AttributeError")."""
+    n = 0
+
+    class T(ast.NodeTransformer):
+        def visit_Try(self, node):
+            self.generic_visit(node)
+            nonlocal n
+            if node.finalbody or len(node.handlers) != 1 or len(node.body) != 1:
+                return node
+            h = node.handlers[0]
+            if h.name is not None or not (isinstance(h.type, ast.Name) and h.type.id == "AttributeError"):
+                return node
+            st = node.body[0]
+            if not (isinstance(st, ast.Assign) and len(st.targets) == 1 and isinstance(st.targets[0], ast.Name) and isinstance(st.value, ast.Attribute) and isinstance(st.value.value, ast.Name)):
+                return node
+            test = ast.Call(func=ast.Name(id="hasattr", ctx=ast.Load()), args=[ast.Name(id=st.value.value.id, ctx=ast.Load()), ast.Constant(st.value.attr)], keywords=[])
+            n += 1
+            return ast.copy_location(ast.If(test=test, body=[st] + node.orelse, orelse=h.body), node)
+    T().visit(tree)
+    if n:
+        ast.fix_missing_locations(tree)
+    return n
+
+
+def inline_loop_generators(tree):
+    """def g(self, a, b): for t in XS: S..; yield E         and        for v in self.g(x, y): BODY
+       ==>   _a = x; _b = y; for t in XS[a:=_a, b:=_b]: S..; v = E; BODY
+    A generator whose body is one loop ending in its only `yield` runs S of one iteration right before the consumer's BODY of that
+    iteration (generators are lazy), which is the merged loop.  Arguments are bound once, before the loop, as the call does.
+    Requires: plain parameters, as many positional arguments, parameters not re-bound in g, nothing after the yield in the loop and
+    nothing after the loop, no return / nested yield in S, the call is the loop's iterable itself."""
+    n = 0
+    gens = {}
+    for scope in [tree] + [c for c in tree.body if isinstance(c, ast.ClassDef)]:
+        for fn in [f for f in scope.body if isinstance(f, ast.FunctionDef)]:
+            body = [b for b in fn.body if not (isinstance(b, ast.Expr) and isinstance(b.value, ast.Constant))]
+            if len(body) != 1 or not isinstance(body[0], ast.For) or body[0].orelse or fn.decorator_list:
+                continue
+            lp = body[0]
+            if len(lp.body) < 2 or not (isinstance(lp.body[-1], ast.Expr) and isinstance(lp.body[-1].value, ast.Yield) and lp.body[-1].value.value is not None):
+                continue
+            if any(isinstance(y, (ast.Yield, ast.YieldFrom, ast.Return, ast.Break, ast.Continue, ast.FunctionDef, ast.Lambda, ast.Global, ast.Nonlocal)) for b in lp.body[:-1] for y in ast.walk(b)):
+                continue
+            a = fn.args
+            if a.vararg or a.kwarg or a.kwonlyargs or a.defaults or a.posonlyargs:
+                continue
+            params = [x.arg for x in a.args]
+            is_method = isinstance(scope, ast.ClassDef)
+            if is_method and (not params or params[0] != "self"):
+                continue
+            stored = {y.id for y in ast.walk(lp) if isinstance(y, ast.Name) and isinstance(y.ctx, ast.Store)}
+            if stored & set(params):
+                continue
+            gens[(scope.name if is_method else None, fn.name)] = (fn, lp, params[1:] if is_method else params, stored)
+    if not gens:
+        return 0
+    for scope in [tree] + [c for c in tree.body if isinstance(c, ast.ClassDef)]:
+        cname = scope.name if isinstance(scope, ast.ClassDef) else None
+        for fn in [f for f in scope.body if isinstance(f, ast.FunctionDef)]:
+            for holder in list(ast.walk(fn)):
+                for field in ("body", "orelse", "finalbody"):
+                    blk = getattr(holder, field, None)
+                    if not isinstance(blk, list) or not blk or not all(isinstance(b, ast.stmt) for b in blk):
+                        continue
+                    i = 0
+                    while i < len(blk):
+                        st = blk[i]
+                        i += 1
+                        if not (isinstance(st, ast.For) and not st.orelse and isinstance(st.iter, ast.Call) and not st.iter.keywords):
+                            continue
+                        c = st.iter
+                        key = None
+                        if isinstance(c.func, ast.Attribute) and isinstance(c.func.value, ast.Name) and c.func.value.id == "self" and cname is not None:
+                            key = (cname, c.func.attr)
+                        elif isinstance(c.func, ast.Name):
+                            key = (None, c.func.id)
+                        if key not in gens or gens[key][0] is fn:
+                            continue
+                        g, lp, params, stored = gens[key]
+                        if len(c.args) != len(params) or any(isinstance(x, ast.Starred) for x in c.args):
+                            continue
+                        k = next(_counter)
+                        taken = {y.id for y in ast.walk(fn) if isinstance(y, ast.Name)}
+                        ren = {nm: (nm if nm not in taken else f"{nm}__g{k}") for nm in stored}
+                        pre, env = [], {}
+                        for p_, arg in zip(params, c.args):
+                            if isinstance(arg, ast.Constant):
+                                env[p_] = arg
+                            else:
+                                tmp = f"_g{k}_{p_}"
+                                pre.append(ast.copy_location(ast.Assign(targets=[ast.Name(id=tmp, ctx=ast.Store())], value=arg, lineno=st.lineno), st))
+                                env[p_] = ast.Name(id=tmp, ctx=ast.Load())
+
+                        class R(ast.NodeTransformer):
+                            def visit_Name(self, node):
+                                if node.id in env and isinstance(node.ctx, ast.Load):
+                                    return copy.deepcopy(env[node.id])
+                                if node.id in ren:
+                                    return ast.copy_location(ast.Name(id=ren[node.id], ctx=node.ctx), node)
+                                return node
+                        new_lp = R().visit(copy.deepcopy(lp))
+                        yielded = new_lp.body[-1].value.value
+                        # `for e in ..: ..; yield e` consumed by `for e in ..`: the consumer's name is the generator's
+                        if isinstance(st.target, ast.Name) and isinstance(yielded, ast.Name) and yielded.id == st.target.id:
+                            bind = []
+                        else:
+                            bind = [ast.copy_location(ast.Assign(targets=[st.target], value=yielded, lineno=st.lineno), st)]
+                        new_lp.body = new_lp.body[:-1] + bind + st.body
+                        ast.copy_location(new_lp, st)
+                        blk[i - 1:i] = pre + [new_lp]
+                        i += len(pre)
+                        n += 1
+    if n:
+        # a private generator with no reference left is gone (its statements now live in its consumers)
+        for (cn, name), (g, lp, params, stored) in gens.items():
+            if not name.startswith("_") or name.startswith("__"):
+                continue
+            refs = [y for y in ast.walk(tree) if (isinstance(y, ast.Attribute) and y.attr == name) or (isinstance(y, ast.Name) and y.id == name) or (isinstance(y, ast.Constant) and y.value == name)]
+            if not refs:
+                for scope in [tree] + [c for c in tree.body if isinstance(c, ast.ClassDef)]:
+                    if g in scope.body:
+                        scope.body.remove(g)
+        ast.fix_missing_locations(tree)
+    return n
+
+
+def inline_cm_classes(tree):
+    """class _CM: __init__(self, a): self.a = a;  __enter__: return E(self.a);  __exit__(self, et, ev, tb): if et is None: S(self.a)
+       with _CM(x) as v: BODY      ==>   v = E(x); BODY; S(x)
+    (and, when __exit__ runs S whatever happened:  v = E(x); try: BODY finally: S(x)).  A private module-level context-manager class
+    whose three methods are that simple is the statement sequence the `with` protocol makes of it; __exit__ returns None, so an
+    exception of BODY propagates.  x must be a plain name / attribute chain (read again where S uses it)."""
+    n = 0
+    cms = {}
+    for cls in [c for c in tree.body if isinstance(c, ast.ClassDef) and c.name.startswith("_") and not c.bases and not c.decorator_list]:
+        ms = {m.name: m for m in cls.body if isinstance(m, ast.FunctionDef)}
+        others = [b for b in cls.body if not isinstance(b, ast.FunctionDef) and not (isinstance(b, ast.Expr) and isinstance(b.value, ast.Constant))]
+        if set(ms) != {"__init__", "__enter__", "__exit__"} or others or any(m.decorator_list for m in ms.values()):
+            continue
+        nodoc = lambda b: [x for x in b if not (isinstance(x, ast.Expr) and isinstance(x.value, ast.Constant))]
+        init, ent, ex = ms["__init__"], ms["__enter__"], ms["__exit__"]
+        ia = init.args
+        if ia.vararg or ia.kwarg or ia.kwonlyargs or ia.defaults or len(ia.args) < 1:
+            continue
+        params = [a.arg for a in ia.args[1:]]
+        fields = {}
+        okc = True
+        for st in nodoc(init.body):
+            if isinstance(st, (ast.Assign, ast.AnnAssign)):
+                t = st.targets[0] if isinstance(st, ast.Assign) else st.target
+                if isinstance(t, ast.Attribute) and isinstance(t.value, ast.Name) and t.value.id == "self" and isinstance(st.value, ast.Name) and st.value.id in params and t.attr not in fields:
+                    fields[t.attr] = st.value.id
+                    continue
+            okc = False
+        eb = nodoc(ent.body)
+        if not okc or len(eb) != 1 or not isinstance(eb[0], ast.Return) or eb[0].value is None or len(ent.args.args) != 1:
+            continue
+        xa = ex.args
+        if len(xa.args) != 4 or xa.vararg or xa.kwarg:
+            continue
+        xb = nodoc(ex.body)
+        et = xa.args[1].arg
+        cond = False
+        if len(xb) == 1 and isinstance(xb[0], ast.If) and not xb[0].orelse and isinstance(xb[0].test, ast.Compare) and len(xb[0].test.ops) == 1 and isinstance(xb[0].test.ops[0], ast.Is) \
+                and isinstance(xb[0].test.left, ast.Name) and xb[0].test.left.id == et and isinstance(xb[0].test.comparators[0], ast.Constant) and xb[0].test.comparators[0].value is None:
+            cond, xb = True, xb[0].body
+        if any(isinstance(y, (ast.Return, ast.Yield, ast.YieldFrom)) for b in xb for y in ast.walk(b)) or any(isinstance(y, ast.Name) and y.id in [a.arg for a in xa.args[1:]] for b in xb for y in ast.walk(b)):
+            continue
+        # the methods see the instance only through the fields set by __init__
+        def only_fields(nodes):
+            for b in nodes:
+                for y in ast.walk(b):
+                    if isinstance(y, ast.Name) and y.id == "self":
+                        return False if not getattr(y, "_fld", False) else True
+            return True
+        bad = False
+        for b in [eb[0].value] + xb:
+            for y in ast.walk(b):
+                if isinstance(y, ast.Attribute) and isinstance(y.value, ast.Name) and y.value.id == "self":
+                    if y.attr not in fields or not isinstance(y.ctx, ast.Load):
+                        bad = True
+                    y.value._fld = True
+            for y in ast.walk(b):
+                if isinstance(y, ast.Name) and y.id == "self" and not getattr(y, "_fld", False):
+                    bad = True
+        if bad:
+            continue
+        cms[cls.name] = (cls, params, fields, eb[0].value, xb, cond)
+    if not cms:
+        return 0
+
+    def simple(a):
+        return isinstance(a, ast.Name) or (isinstance(a, ast.Attribute) and simple(a.value))
+
+    for fn in [f for f in ast.walk(tree) if isinstance(f, ast.FunctionDef)]:
+        for holder in list(ast.walk(fn)):
+            for field in ("body", "orelse", "finalbody"):
+                blk = getattr(holder, field, None)
+                if not isinstance(blk, list) or not blk or not all(isinstance(b, ast.stmt) for b in blk):
+                    continue
+                i = 0
+                while i < len(blk):
+                    st = blk[i]
+                    i += 1
+                    if not (isinstance(st, ast.With) and len(st.items) == 1 and isinstance(st.items[0].context_expr, ast.Call) and isinstance(st.items[0].context_expr.func, ast.Name)
+                            and st.items[0].context_expr.func.id in cms):
+                        continue
+                    c = st.items[0].context_expr
+                    cls, params, fields, enter_e, exit_b, cond = cms[c.func.id]
+                    if c.keywords or len(c.args) != len(params) or not all(simple(a) for a in c.args):
+                        continue
+                    # the arguments are read again by the exit statements: the body must not re-bind the names they start from
+                    roots = set()
+                    for a in c.args:
+                        r = a
+                        while isinstance(r, ast.Attribute):
+                            r = r.value
+                        roots.add(r.id)
+                    if any(isinstance(y, ast.Name) and y.id in roots and isinstance(y.ctx, ast.Store) for b in st.body for y in ast.walk(b)) or \
+                            any(isinstance(y, ast.Attribute) and isinstance(y.ctx, ast.Store) and ast.unparse(y) in {ast.unparse(a) for a in c.args} for b in st.body for y in ast.walk(b)):
+                        continue
+                    env = dict(zip(params, c.args))
+
+                    class R(ast.NodeTransformer):
+                        def visit_Attribute(self, node):
+                            if isinstance(node.value, ast.Name) and node.value.id == "self" and node.attr in fields:
+                                return copy.deepcopy(env[fields[node.attr]])
+                            self.generic_visit(node)
+                            return node
+                    ent_v = R().visit(copy.deepcopy(enter_e))
+                    ex_s = [R().visit(copy.deepcopy(b)) for b in exit_b]
+                    v = st.items[0].optional_vars
+                    pre = [ast.copy_location(ast.Assign(targets=[v], value=ent_v, lineno=st.lineno), st)] if v is not None else \
+                        ([ast.copy_location(ast.Expr(value=ent_v), st)] if any(isinstance(y, ast.Call) for y in ast.walk(ent_v)) else [])
+                    if cond:
+                        if _has_jump(st.body) or any(isinstance(y, ast.Return) for b in st.body for y in ast.walk(b)):
+                            continue
+                        new = pre + st.body + ex_s
+                    else:
+                        new = pre + [ast.copy_location(ast.Try(body=st.body, handlers=[], orelse=[], finalbody=ex_s), st)]
+                    blk[i - 1:i] = new
+                    i += len(new) - 1
+                    n += 1
+    if n:
+        for name, (cls, *_r) in cms.items():
+            if not any(isinstance(y, ast.Name) and y.id == name for y in ast.walk(tree)):
+                tree.body.remove(cls)
+        ast.fix_missing_locations(tree)
+    return n
+
+
+def sink_branch_callables(tree):
+    """if c: .. f = self.a   else: .. f = partial(self.b, x)        ==>   if c: .. r = self.a(ARGS)   else: .. r = self.b(x, ARGS)
+       r = f(ARGS)
+    A local bound, as the last statement of every arm of an if, to a callable (a bound method, a function name, or partial(F, a..))
+    and used only by the single call that follows the if immediately: the call moves into the arms.  ARGS must be plain names /
+    constants (nothing evaluated between the binding and the call can change them)."""
+    n = 0
+    for fn in [f for f in ast.walk(tree) if isinstance(f, ast.FunctionDef)]:
+        for holder in list(ast.walk(fn)):
+            for field in ("body", "orelse", "finalbody"):
+                blk = getattr(holder, field, None)
+                if not isinstance(blk, list) or len(blk) < 2 or not all(isinstance(b, ast.stmt) for b in blk):
+                    continue
+                for i in range(len(blk) - 1):
+                    st, nxt = blk[i], blk[i + 1]
+                    if not (isinstance(st, ast.If) and st.orelse):
+                        continue
+                    # arms of the if / elif chain
+                    arms = []
+                    cur = st
+                    while True:
+                        arms.append(cur.body)
+                        if len(cur.orelse) == 1 and isinstance(cur.orelse[0], ast.If) and cur.orelse[0].orelse:
+                            cur = cur.orelse[0]
+                            continue
+                        arms.append(cur.orelse)
+                        break
+                    lasts = [a[-1] for a in arms if a]
+                    if len(lasts) != len(arms) or not all(isinstance(l, ast.Assign) and len(l.targets) == 1 and isinstance(l.targets[0], ast.Name) for l in lasts):
+                        continue
+                    f = lasts[0].targets[0].id
+                    if any(l.targets[0].id != f for l in lasts):
+                        continue
+                    call = None
+                    if isinstance(nxt, (ast.Assign, ast.Expr, ast.Return)) and isinstance(nxt.value, ast.Call) and isinstance(nxt.value.func, ast.Name) and nxt.value.func.id == f:
+                        call = nxt.value
+                    if call is None or call.keywords or not all(isinstance(a, (ast.Name, ast.Constant)) for a in call.args) or any(isinstance(a, ast.Name) and a.id == f for a in call.args):
+                        continue
+                    uses = [y for y in ast.walk(fn) if isinstance(y, ast.Name) and y.id == f]
+                    if len(uses) != len(lasts) + 1:
+                        continue
+
+                    def applied(c_):
+                        if isinstance(c_, ast.Call) and ast.unparse(c_.func) in ("partial", "functools.partial") and c_.args and not c_.keywords and isinstance(c_.args[0], (ast.Name, ast.Attribute)) \
+                                and all(isinstance(a, (ast.Name, ast.Constant, ast.Attribute)) for a in c_.args[1:]):
+                            return ast.Call(func=c_.args[0], args=list(c_.args[1:]) + [copy.deepcopy(a) for a in call.args], keywords=[])
+                        if isinstance(c_, ast.Attribute) and isinstance(c_.value, ast.Name) and c_.value.id in ("self", "cls"):
+                            return ast.Call(func=c_, args=[copy.deepcopy(a) for a in call.args], keywords=[])
+                        if isinstance(c_, ast.Name) and c_.id != f:
+                            return ast.Call(func=c_, args=[copy.deepcopy(a) for a in call.args], keywords=[])
+                        return None
+                    news = [applied(l.value) for l in lasts]
+                    if any(x is None for x in news):
+                        continue
+                    for a, l, nw in zip(arms, lasts, news):
+                        repl = copy.copy(nxt)
+                        repl.value = nw
+                        a[-1] = ast.copy_location(repl, l)
+                    del blk[i + 1]
+                    n += 1
+                    break
+    if n:
+        ast.fix_missing_locations(tree)
+    return n
+
+
+def singledispatch_to_if(tree):
+    """@singledispatchmethod def f(self, x): BASE;  @f.register(int) def _a(self, x): A;  @f.register(str) def _b(self, x): B
+       ==>   def f(self, x): if isinstance(x, int): A  elif isinstance(x, str): B  else: BASE
+    singledispatch picks the implementation registered for the nearest class in type(x).__mro__; with registered builtin classes
+    none of which is a subclass of another that is the isinstance chain (in any order)."""
+    n = 0
+    UNRELATED = {"int", "str", "float", "bytes", "list", "tuple", "dict", "set", "complex", "bytearray"}
+    for cls in [c for c in ast.walk(tree) if isinstance(c, ast.ClassDef)]:
+        for base in [m for m in cls.body if isinstance(m, ast.FunctionDef) and [ast.unparse(d) for d in m.decorator_list] in (["singledispatchmethod"], ["functools.singledispatchmethod"])]:
+            if len(base.args.args) != 2 or base.args.vararg or base.args.kwarg or base.args.kwonlyargs or base.args.defaults:
+                continue
+            p = base.args.args[1].arg
+            regs = []
+            ok = True
+            for m in cls.body:
+                if not isinstance(m, ast.FunctionDef) or m is base:
+                    continue
+                for d in m.decorator_list:
+                    if isinstance(d, ast.Call) and ast.unparse(d.func) == f"{base.name}.register" and len(d.args) == 1 and not d.keywords and len(m.decorator_list) == 1:
+                        t = d.args[0]
+                    elif isinstance(d, ast.Attribute) and ast.unparse(d) == f"{base.name}.register" and len(m.decorator_list) == 1 and len(m.args.args) == 2 and m.args.args[1].annotation is not None:
+                        t = m.args.args[1].annotation
+                    else:
+                        if base.name in ast.unparse(d):
+                            ok = False
+                        continue
+                    if not (isinstance(t, ast.Name) and t.id in UNRELATED) or len(m.args.args) != 2 or m.args.vararg or m.args.kwarg or m.args.kwonlyargs or m.args.defaults:
+                        ok = False
+                        continue
+                    regs.append((t.id, m))
+            if not ok or not regs or len({t for t, _ in regs}) != len(regs):
+                continue
+            # the registered functions are reachable only through the dispatcher
+            names = {m.name for _, m in regs}
+            if any((isinstance(y, ast.Attribute) and y.attr in names) or (isinstance(y, ast.Name) and y.id in names) for y in ast.walk(tree)):
+                continue
+            chain = [b for b in base.body]
+            for t, m in reversed(regs):
+                q = m.args.args[1].arg
+                body = [b for b in m.body if not (isinstance(b, ast.Expr) and isinstance(b.value, ast.Constant))]
+                if q != p:
+                    if any(isinstance(y, ast.Name) and y.id == p for b in body for y in ast.walk(b)):
+                        ok = False
+                        break
+
+                    class Rn(ast.NodeTransformer):
+                        def visit_Name(self, node):
+                            return ast.copy_location(ast.Name(id=p, ctx=node.ctx), node) if node.id == q else node
+                    body = [Rn().visit(b) for b in body]
+                test = ast.Call(func=ast.Name(id="isinstance", ctx=ast.Load()), args=[ast.Name(id=p, ctx=ast.Load()), ast.Name(id=t, ctx=ast.Load())], keywords=[])
+                chain = [ast.copy_location(ast.If(test=test, body=body or [ast.Pass()], orelse=chain), m)]
+            if not ok:
+                continue
+            base.body = chain
+            base.decorator_list = []
+            for _, m in regs:
+                cls.body.remove(m)
+            n += 1
+    if n:
+        ast.fix_missing_locations(tree)
+    return n
+
+
+def induction_variables(tree):
+    """v = A ... for x in XS[lo:]: v += K; USE(v)   ==>   for (_iv, x) in enumerate(XS[lo:], start=lo): USE(v + K * (_iv - lo + 1))
+    (and `USE(v); v += K` ==> USE(v + K * (_iv - lo))).  A running address / index that advances by a fixed step per iteration is its
+    closed form in the iteration number.  Requires: v is a local name, the step is its only store inside the loop and sits at the
+    top level of the loop body, K is free of calls and of names stored in the loop, no `continue` can skip the step, the loop is
+    not nested in another loop and v is not read after it (its final value is dropped with the step)."""
+    n = 0
+    counter = [0]
+    for fn in [f for f in ast.walk(tree) if isinstance(f, (ast.FunctionDef,))]:
+        nested = set()
+        for lp in [x for x in ast.walk(fn) if isinstance(x, (ast.For, ast.While))]:
+            for y in ast.walk(lp):
+                if y is not lp and isinstance(y, (ast.For, ast.While)):
+                    nested.add(id(y))
+        for lp in [x for x in ast.walk(fn) if isinstance(x, ast.For) and id(x) not in nested and not x.orelse]:
+            steps = [(i, st) for i, st in enumerate(lp.body) if isinstance(st, ast.AugAssign) and isinstance(st.op, (ast.Add, ast.Sub)) and isinstance(st.target, ast.Name)]
+            for i, st in steps:
+                v = st.target.id
+                stores_in = [y for y in ast.walk(lp) if isinstance(y, ast.Name) and y.id == v and isinstance(y.ctx, ast.Store)]
+                if len(stores_in) != 1 or any(isinstance(y, (ast.Global, ast.Nonlocal)) for y in ast.walk(fn)):
+                    continue
+                if any(isinstance(y, (ast.Call, ast.Await, ast.NamedExpr)) for y in ast.walk(st.value)):
+                    continue
+                stored_names = {y.id for y in ast.walk(lp) if isinstance(y, ast.Name) and isinstance(y.ctx, ast.Store)}
+                if any(isinstance(y, ast.Name) and y.id in stored_names for y in ast.walk(st.value)):
+                    continue
+                if any(isinstance(y, ast.Name) and y.id == v for y in ast.walk(st.value)):
+                    continue
+                if i != 0 and any(isinstance(y, ast.Continue) for b in lp.body[:i] for y in ast.walk(b)):
+                    continue
+                if any(isinstance(y, (ast.Lambda, ast.FunctionDef, ast.GeneratorExp)) and any(isinstance(z, ast.Name) and z.id == v for z in ast.walk(y)) for y in ast.walk(lp)):
+                    continue
+                end = getattr(lp, "end_lineno", None)
+                if end is None or any(isinstance(y, ast.Name) and y.id == v and getattr(y, "lineno", 0) > end for y in ast.walk(fn)):
+                    continue
+                # v must be bound before the loop by a plain assignment in the function
+                if not any(isinstance(y, ast.Name) and y.id == v and isinstance(y.ctx, ast.Store) and getattr(y, "lineno", 10 ** 9) < lp.lineno for y in ast.walk(fn)):
+                    continue
+                # iteration number
+                it = lp.iter
+                if isinstance(it, ast.Call) and isinstance(it.func, ast.Name) and it.func.id == "enumerate" and isinstance(lp.target, ast.Tuple) and len(lp.target.elts) == 2 \
+                        and isinstance(lp.target.elts[0], ast.Name) and not any(isinstance(y, ast.Name) and y.id == lp.target.elts[0].id and isinstance(y.ctx, ast.Store) for b in lp.body for y in ast.walk(b)):
+                    iv = lp.target.elts[0].id
+                    start = next((k.value for k in it.keywords if k.arg == "start"), it.args[1] if len(it.args) > 1 else ast.Constant(0))
+                else:
+                    counter[0] += 1
+                    iv = f"_iv{counter[0]}"
+                    start = ast.Constant(0)
+                    if isinstance(it, ast.Subscript) and isinstance(it.slice, ast.Slice) and it.slice.step is None and it.slice.lower is not None \
+                            and not any(isinstance(y, (ast.Call, ast.NamedExpr)) for y in ast.walk(it.slice.lower)) \
+                            and not any(isinstance(y, ast.Name) and y.id in stored_names for y in ast.walk(it.slice.lower)) \
+                            and not (isinstance(it.slice.lower, ast.UnaryOp)) and not (isinstance(it.slice.lower, ast.Constant) and isinstance(it.slice.lower.value, int) and it.slice.lower.value < 0):
+                        start = it.slice.lower
+                    kw = [] if isinstance(start, ast.Constant) and start.value == 0 else [ast.keyword(arg="start", value=copy.deepcopy(start))]
+                    lp.iter = ast.Call(func=ast.Name(id="enumerate", ctx=ast.Load()), args=[it], keywords=kw)
+                    lp.target = ast.Tuple(elts=[ast.Name(id=iv, ctx=ast.Store()), lp.target], ctx=ast.Store())
+
+                def closed(extra):
+                    num = ast.BinOp(left=ast.Name(id=iv, ctx=ast.Load()), op=ast.Sub(), right=copy.deepcopy(start))
+                    if extra:
+                        num = ast.BinOp(left=num, op=ast.Add(), right=ast.Constant(1))
+                    return ast.BinOp(left=ast.Name(id=v, ctx=ast.Load()), op=copy.deepcopy(st.op), right=ast.BinOp(left=copy.deepcopy(st.value), op=ast.Mult(), right=num))
+
+                class Sub_(ast.NodeTransformer):
+                    def __init__(self, extra):
+                        self.extra = extra
+
+                    def visit_Name(self, node):
+                        if node.id == v and isinstance(node.ctx, ast.Load):
+                            return closed(self.extra)
+                        return node
+                new_body = []
+                for j, b in enumerate(lp.body):
+                    if j == i:
+                        continue
+                    new_body.append(Sub_(j > i).visit(b))
+                lp.body = new_body or [ast.Pass()]
+                n += 1
+                break
+    if n:
+        ast.fix_missing_locations(tree)
+    return n
+
+
 def desugar_module(tree: ast.Module):
     seek_names(tree)
     operator_names(tree)
@@ -2576,9 +3320,13 @@ def desugar_module(tree: ast.Module):
     collect_list_attrs(tree)
     MatchToIf().visit(tree)
     ast.fix_missing_locations(tree)
+    eafp_attribute(tree)
+    singledispatch_to_if(tree)
     explicit_properties(tree)
     exitstack_conditional(tree)
     inline_contextmanagers(tree)
+    inline_cm_classes(tree)
+    inline_loop_generators(tree)
     generators_to_tuples(tree)
     unroll_yield_sequences(tree)
     inline_self_subscripts(tree)
@@ -2588,7 +3336,10 @@ def desugar_module(tree: ast.Module):
     projected_snapshots(tree)
     dtype_names(tree)
     WalrusHoist().run(tree)
+    sink_branch_callables(tree)
     WhileToFor().run(tree)
+    induction_variables(tree)
+    empty_guards(tree)
     TryFinallyClose().run(tree)
     Desugar().visit(tree)
     ast.fix_missing_locations(tree)
